@@ -307,6 +307,59 @@ theorem exS_reparam_v :
     ∧ exSA.bases.toList = [openBasis 2 (clampedU 0 2 [1]) (clampedM 2 [1]), exSu1] := by
   refine ⟨?_, ?_, ?_, ?_, ?_⟩ <;> decide +kernel
 
+/-- A `C^0`-periodic piecewise linear curve on `[0,2]` (two control points, `n = 2 = p + k`) against an
+    open segment: the pair of `C12_periodic_curves_partial`. -/
+def exPerB : Basis ℚ := ⟨2, #[-1, 0, 1, 2, 3], 0⟩
+def exPer : Obj ℚ := { bases := #[exPerB], cps := ⟨[2, 2], #[0, 0, 1, 2]⟩, rational := false }
+def exSeg : Obj ℚ := { bases := #[⟨2, #[0, 0, 1, 1], -1⟩], cps := ⟨[2, 2], #[3, 1, 0, 5]⟩, rational := false }
+def exPera : Obj ℚ :=
+  { bases := #[⟨2, #[-1/2, 0, 1/2, 1, 3/2], 0⟩], cps := ⟨[2, 2], #[0, 0, 1, 2]⟩, rational := false }
+
+theorem exPerB_valid : exPerB.Valid where
+  order_pos := by decide
+  size_ge := by decide
+  sorted := by
+    intro i hi
+    have hi' : i + 1 < 5 := hi
+    have hi'' : i < 4 := by omega
+    interval_cases i <;> norm_num [Basis.kn, exPerB]
+  periodic_ge := by decide
+  periodic_le := by decide
+  start_lt_stop := by norm_num [Basis.start, Basis.stop, Basis.kn, exPerB]
+  ghosts := by
+    intro _ i hi
+    have hi' : i + 2 < 5 := hi
+    have hi'' : i < 3 := by omega
+    interval_cases i <;> norm_num [Basis.kn, Basis.start, Basis.stop, Basis.numFunctions, exPerB]
+
+theorem exPer_wf : C06.WF exPer 1 where
+  size := rfl
+  valid := by
+    intro d
+    match d with
+    | ⟨0, _⟩ => exact exPerB_valid
+  shape := by decide
+
+theorem exSeg_wf : C06.WF exSeg 1 where
+  size := rfl
+  valid := by
+    intro d
+    match d with
+    | ⟨0, _⟩ => exact exSu1_valid
+  shape := by decide
+
+/-- `reparam` of `(exSeg, exPer)`, and what `lower_periodic(-1)` makes of the periodic basis. -/
+theorem exPer_stages :
+    Obj.stageReparam (exSeg, exPer) 0 = .ok (exSeg, exPera)
+    ∧ exSeg.basis 0 = openBasis 2 (clampedU 0 1 [1/2]) (clampedM 2 [0])
+    ∧ (match exPera.lowerPeriodic (-1) 0 with
+        | .ok o2 => decide (o2.basis 0 = openBasis 2 (clampedU 0 1 [1/2]) (clampedM 2 [1]))
+        | .error _ => false) = true
+    ∧ (exPera.basis 0).periodic = ((0 : ℕ) : Int)
+    ∧ (exPera.basis 0).order + 0 ≤ (exPera.basis 0).numFunctions
+    ∧ (exPera.basis 0).start < (exPera.basis 0).kn (exPera.basis 0).order := by
+  refine ⟨?_, ?_, ?_, ?_, ?_, ?_⟩ <;> decide +kernel
+
 end C12
 
 end Splipy
